@@ -605,6 +605,17 @@ def second_phase(cases, real, souts):
             souts[i] = (souts[i], None)
     for i, o in zip(idx, outs):
         souts[i] = (souts[i][0], o)
+    # a third spec command on the real output (`spec3`): result appended
+    idx3, cmds3 = [], []
+    for i, (c, r) in enumerate(zip(cases, real)):
+        f3 = FNS[c["fn"]].get("spec3")
+        if f3 is not None:
+            cmd = f3(c, r)
+            if cmd is not None:
+                idx3.append(i)
+                cmds3.append(cmd)
+    for i, o in zip(idx3, L.pq_batch(cmds3, nproc=4)):
+        souts[i] = souts[i] + (o,)
     return souts
 
 
@@ -1153,6 +1164,9 @@ def _md_oracle(c, r, so, guard):
         return [("values", "definition levels decode to %r..., the data has %r..." % (list(vals)[:12], want[:12]))]
     if n and len(rest):
         return [("cursor", "%d bytes behind the runs / length prefix does not cover the block" % len(rest))]
+    if n and len(so) > 2 and so[2]:
+        # the block must encode the n levels and nothing else (bit-packed padding: at most 8 more, + the writer's extra zero byte)
+        return [("count", "the block encodes at least %d levels for %d rows (run header counts too many values)" % (n + 17, n))]
     if c["version"] == 1 and int.from_bytes(block[:4], "little") != len(block) - 4:
         return [("count", "length prefix %d, block body %d bytes" % (int.from_bytes(block[:4], "little"), len(block) - 4))]
     if r[2] != (n if c["no_nulls"] else None) and c["no_nulls"]:
@@ -1203,7 +1217,9 @@ FNS.update({
                              spec=lambda c: ("uleb_enc", 0), oracle=_md_oracle, safe=lambda c: True, cls=lambda c: {"version": c["version"]},
                              trivial=lambda c: not c["vals"],
                              spec2=lambda c, r: (("hyb_dec_len" if c["version"] == 1 else "hyb_dec"), 1 if c["version"] == 1 else 0, 1,
-                                                 len(c["vals"]), bytes.fromhex(r[1])) if r[0] == "ok" else None),
+                                                 len(c["vals"]), bytes.fromhex(r[1])) if r[0] == "ok" else None,
+                             spec3=lambda c, r: (("hyb_dec_len" if c["version"] == 1 else "hyb_dec"), 0, 1,
+                                                 len(c["vals"]) + 17, bytes.fromhex(r[1])) if r[0] == "ok" else None),
     "encode_dict": dict(model=lambda c: ("py_encode_dict", c["meta"]["isz"], c["vals"]), tagged=False,
                         views=_info_views("py_encode_dict"), spec=lambda c: ("uleb_enc", 0), oracle=_ed_oracle,
                         spec2=lambda c, r: ("hyb_dec", 0, 8 * c["meta"]["isz"], len(c["vals"]), bytes.fromhex(r[1])[1:]) if r[0] == "ok" and r[1] else None,
